@@ -299,6 +299,11 @@ theorem runCycleUnits_good {s : MState} (h : Good s) (c gen : Nat) : Good (runCy
   | srflx => exact foldl_good _ (fun s u hs => startUnit_good hs c gen u) _ _ hs
   | relay => exact foldl_good _ (fun s u hs => startUnit_good hs c gen u) _ _ hs
 
+theorem startMonitorIf_good {s : MState} (h : Good s) (b : Bool) (c : Nat) : Good (startMonitorIf b s c) := by
+  unfold startMonitorIf; split
+  · exact good_of_same h rfl rfl rfl rfl
+  · exact h
+
 theorem finishCycle_good {s : MState} (h : Good s) : Good (finishCycle s) := by
   unfold finishCycle
   split
@@ -307,7 +312,50 @@ theorem finishCycle_good {s : MState} (h : Good s) : Good (finishCycle s) := by
     · exact h
     · split
       · exact h
+      · apply startMonitorIf_good
+        exact good_of_same h rfl rfl rfl rfl
+
+theorem recordKnown_good {s : MState} (h : Good s) : Good (recordKnown s) := by
+  unfold recordKnown; split
+  · exact good_of_same h rfl rfl rfl rfl
+  · exact h
+
+/-- a re-gather pass is a further run of the cycle's units -/
+theorem monPass_good {s : MState} (h : Good s) (m : Mon) (c gen : Nat) : Good (monPass s m c gen) := by
+  unfold monPass
+  have hd : Good (detect s).1 := good_of_same h rfl rfl rfl rfl
+  split
+  · exact good_of_same (runCycleUnits_good hd c gen) rfl rfl rfl rfl
+  · exact hd
+
+theorem monTick_good {s : MState} (h : Good s) (m : Mon) : Good (monTick s m) := by
+  unfold monTick
+  split
+  · apply monPass_good
+    exact good_of_same h rfl rfl rfl rfl
+  · exact good_of_same h rfl rfl rfl rfl
+
+theorem monKick_good {s : MState} (h : Good s) : Good (monKick s) := by
+  unfold monKick
+  split
+  · exact h
+  · split
+    · exact h
+    · split
+      · apply monTick_good
+        exact good_of_same h rfl rfl rfl rfl
       · exact good_of_same h rfl rfl rfl rfl
+
+theorem tickDue_good {s : MState} (h : Good s) : Good (tickDue s) := by
+  unfold tickDue
+  split
+  · exact h
+  · split
+    · exact h
+    · split
+      · exact good_of_same h rfl rfl rfl rfl
+      · apply monTick_good
+        exact good_of_same h rfl rfl rfl rfl
 
 theorem sum_filter_split (l : List Job) (p : Job → Bool) :
     (l.map heldCount).sum = ((l.filter p).map heldCount).sum + ((l.filter (fun j => !p j)).map heldCount).sum := by
@@ -369,28 +417,51 @@ theorem dropCands_good {s : MState} (h : Good s) : Good (dropCands s) := by
   omega
 
 theorem expire_good {s : MState} (h : Good s) : Good (expire s) :=
-  finishCycle_good (resume_good h _)
+  monKick_good (finishCycle_good (resume_good h _))
+
+theorem atTime_good {s : MState} (h : Good s) (t : Nat) : Good (atTime s t) :=
+  tickDue_good (expire_good (good_of_same h rfl rfl rfl rfl))
+
+theorem advLoop_good : ∀ (fuel : Nat) {s : MState}, Good s → ∀ target, Good (advLoop fuel s target) := by
+  intro fuel
+  induction fuel with
+  | zero => intro s h _; exact h
+  | succ n ih =>
+    intro s h target
+    simp only [advLoop]
+    split
+    · exact h
+    · exact ih (atTime_good h _) target
+
+theorem advanceTo_good {s : MState} (h : Good s) (target : Nat) : Good (advanceTo s target) :=
+  atTime_good (advLoop_good _ h target) target
+
+theorem advTo_good {s : MState} (h : Good s) (t : Nat) : Good (advTo s t) := by
+  unfold advTo; split
+  · exact advanceTo_good h _
+  · exact expire_good (good_of_same h rfl rfl rfl rfl)
 
 theorem openGate_good {s : MState} (h : Good s) : Good (openGate s) := by
   unfold openGate
+  apply monKick_good
   apply finishCycle_good
   refine foldl_good _ ?_ _ _ ?_
   · intro s c hs
     exact runHost_good hs _ _
   · exact good_of_same h rfl rfl rfl rfl
 
+theorem closeWait_good {s : MState} (h : Good s) (dl : Nat) : Good (closeWait s dl) := by
+  unfold closeWait; split
+  · exact good_of_same h rfl rfl rfl rfl
+  · exact h
+
 theorem closeAgent_good {s : MState} (h : Good s) : Good (closeAgent s) := by
   unfold closeAgent
   apply dropCands_good
   apply resume_good
-  have h1 := openGate_good h
-  have h2 : Good { openGate s with cyc := (Cycle.step false (openGate s).cyc .close).1 } :=
-    good_of_same h1 rfl rfl rfl rfl
-  have h3 := resume_good h2 (fun j => if isStunJob j &&
-      (((openGate s).cyc.cycles[j.cyc]?).map (fun c => !c.cancelled)).getD false then some (.fail, 0) else none)
-  split
-  · exact good_of_same h3 rfl rfl rfl rfl
-  · exact h3
+  apply closeWait_good
+  apply resume_good
+  exact good_of_same (openGate_good h) rfl rfl rfl rfl
 
 theorem applyFailed_good {s : MState} (h : Good s) (n : Nat) : Good (applyFailed s n) := by
   unfold applyFailed
@@ -411,7 +482,7 @@ theorem startCycle_good {s : MState} (h : Good s) (cg : Option (Nat × Nat)) : G
   · exact h
   · split
     · exact good_of_same h rfl rfl rfl rfl
-    · refine finishCycle_good (runCycleUnits_good ?_ _ _)
+    · refine finishCycle_good (runCycleUnits_good (recordKnown_good ?_) _ _)
       exact good_of_same h rfl rfl rfl rfl
 
 theorem restartOp_good {s : MState} (h : Good s) : Good (restartOp s).1 := by
@@ -433,10 +504,12 @@ theorem step_good {s : MState} (h : Good s) (op : Op) : Good (step s op).1 := by
   | gather =>
     simp only [step]
     split
-    · refine finishCycle_good (runCycleUnits_good ?_ _ _)
+    · refine finishCycle_good (runCycleUnits_good (recordKnown_good ?_) _ _)
       exact good_of_same h rfl rfl rfl rfl
     · exact h
     · exact h
+  | ifaces t => exact good_of_same h rfl rfl rfl rfl
+  | hold => exact good_of_same h rfl rfl rfl rfl
   | restart =>
     simp only [step]
     split
@@ -448,26 +521,23 @@ theorem step_good {s : MState} (h : Good s) (op : Op) : Good (step s op).1 := by
     simp only [step]
     split
     · exact h
-    · refine applyFailed_good (expire_good ?_) n
-      exact good_of_same h rfl rfl rfl rfl
+    · exact applyFailed_good (advTo_good h _) n
   | release => exact openGate_good h
-  | adv ms =>
-    refine expire_good ?_
-    exact good_of_same h rfl rfl rfl rfl
+  | adv ms => exact advTo_good h _
   | stunreply k m =>
     simp only [step]
     split
     · exact h
-    · exact finishCycle_good (resume_good h _)
+    · exact monKick_good (finishCycle_good (resume_good h _))
   | turnreply k ok m =>
     simp only [step]
     split
     · exact h
-    · exact finishCycle_good (resume_good h _)
+    · exact monKick_good (finishCycle_good (resume_good h _))
 
 /-- the state a successful constructor returns -/
 theorem newAgent_ok {cfg : Config} {ifs : List Iface} {s : MState} (h : newAgent cfg ifs = .ok s) :
-    s = { cfg := cfg, ifs := ifs, gateClosed := cfg.hold } := by
+    s = { cfg := cfg, ifs := ifs, gateClosed := cfg.hold, cyc := { continual := cfg.continual } } := by
   unfold newAgent at h
   repeat' split at h
   all_goals first
